@@ -1,2 +1,2 @@
-/- C12 — theorems are being added. -/
-import DsdVerif.Model.Kernel
+/- C12 — kernel notation round trips (token level): theorems are in Props/C12Kernel.lean. -/
+import DsdVerif.Props.C12Kernel
